@@ -1172,3 +1172,36 @@ Definition iterate_case_ok (k : iterate_case) : bool :=
   let (es, ok) := iterate_outcome cfg root in
   list_eqb event_eqb es evs && Bool.eqb ok completed
   && option_eqb N.eqb (rejected_at default_rcfg evs) rej.
+
+(* ------------------------------------------------------------------------- *)
+(* One RootObjectIterator used for several documents (what a Marshaler may do).
+   Iterate makes foundReferences and namedReferences anew for every document, so every document
+   stands on its own; only nextMarkerName is never reset: the marker names of a later document
+   continue where the document before stopped.  [iterate_outcome_from n] is [iterate_outcome] with
+   n as the first marker name; it also returns the first marker name of the next document. *)
+Definition recursive_from (n : N) (cfg : icfg) (v : gval) : list event * bool * N :=
+  match fst (rwalk cfg (dups_of v) v) {| named := []; next_marker := n |} with
+  | (es, Some s) => (es, true, next_marker s)
+  | (es, None) => (es, false, n)
+  end.
+Definition iterate_outcome_from (n : N) (cfg : icfg) (root : option gval) : list event * bool * N :=
+  match root with
+  | None => ([EBeginDoc; EVersion 0; ENull; EEndDoc], true, n)
+  | Some v =>
+      let '(es, ok, n') := if c_recursion cfg then recursive_from n cfg v else (plain cfg v, true, n) in
+      (EBeginDoc :: EVersion 0 :: rectypes_events cfg ++ es ++ (if ok then [EEndDoc] else []), ok, n')
+  end.
+
+(* Correspondence cases for a sequence of documents through one iterator: per document the root
+   value, the events delivered, whether the iteration completed, the validator's verdict *)
+Definition iterate_doc := (option gval * list event * bool * option N)%type.
+Definition iterate_seq_case := (icfg * list iterate_doc)%type.
+Fixpoint seq_ok (cfg : icfg) (n : N) (docs : list iterate_doc) : bool :=
+  match docs with
+  | [] => true
+  | (root, evs, completed, rej) :: r =>
+      let '(es, ok, n') := iterate_outcome_from n cfg root in
+      list_eqb event_eqb es evs && Bool.eqb ok completed
+      && option_eqb N.eqb (rejected_at default_rcfg evs) rej && seq_ok cfg n' r
+  end.
+Definition iterate_seq_case_ok (k : iterate_seq_case) : bool := seq_ok (fst k) 0 (snd k).
